@@ -945,6 +945,70 @@ def stage_targeted(ctx: Ctx):
                                       {'before': src, 'first': n1, 'second': n2, 'after': root.src, 'expected': want})
 
 
+VIEW_SEQ_PROGS = [('import os\nimport sys\nimport json  # config loader, do not touch\nx = 1  # keep\n', '', 'body', 'import pathlib'),
+                  ('lst = ["alpha", "beta", "gamma",  # g\n       "delta"]\n', 'body[0].value', 'elts', '"NEW"'),
+                  ('def f():\n    a = 1  # ca\n    b = 2  # cb\n    c = 3  # cc\n    return a  # cr\n', 'body[0]', 'body', 'z = 0')]
+
+
+def stage_view_sequences(ctx: Ctx):
+    """deterministic: TWO edits through one bounded view - an element deleted by assignment (v[i] = None) or by del, then an edit relative to the view's extent (del v[:], v[-1] = new, v[0] = new):
+    the elements outside the view (and their comments) are untouched, inside exactly the addressed elements change - the second edit must see the view as long as it is after the first"""
+    import fst
+    for src, path, field, new in VIEW_SEQ_PROGS:
+        probe = fst.FST(src, 'exec')
+        base = eval('probe.' + path) if path else probe
+        n = len(getattr(base, field))
+        for a_ in range(n):
+            for b_ in range(a_ + 1, n + 1):
+                for i in range(b_ - a_):
+                    for first in ('assign-none', 'del'):
+                        for second in ('del-all', 'set-last', 'set-first'):
+                            root = fst.FST(src, 'exec')
+                            bs = eval('root.' + path) if path else root
+                            full = getattr(bs, field)
+                            texts = [e.src for e in full]
+                            rec = {'src': src, 'field': field, 'view': f'[{a_}:{b_}]', 'first': f'{first} v[{i}]', 'second': second}
+                            want = texts[:a_ + i] + texts[a_ + i + 1:]          # after the first edit; the view is now [a_, b_ - 1)
+                            lo, hi = a_, b_ - 1
+                            if second == 'del-all':
+                                want = want[:lo] + want[hi:]
+                            elif hi > lo:
+                                k = hi - 1 if second == 'set-last' else lo
+                                want = want[:k] + [new] + want[k + 1:]
+                            else:
+                                continue      # the view is empty after the first edit: nothing to address
+                            try:
+                                v = full[a_:b_]
+                                if first == 'assign-none':
+                                    v[i] = None
+                                else:
+                                    del v[i]
+                                if second == 'del-all':
+                                    del v[:]
+                                elif second == 'set-last':
+                                    v[-1] = new
+                                else:
+                                    v[0] = new
+                            except Exception as e:
+                                if not want or (field == 'body' and path and len(want) == 0):
+                                    continue
+                                ctx.violation(f'view-sequence|raise|{type(e).__name__}', 'two edits through one bounded view raised', {**rec, 'error': repr(e)[:200]})
+                                continue
+                            ctx.tick(('view-seq', src, a_, b_, i, first, second), 'view-sequence')
+                            try:
+                                bs2 = eval('root.' + path) if path else root
+                                got = [e.src for e in getattr(bs2, field)]
+                            except Exception as e:
+                                got = [f'!{e!r}'[:80]]
+                            if got != want:
+                                ctx.violation(f'view-sequence|{first}|{second}', 'the second of two edits through one bounded view changed an element outside the view (or not the addressed one)',
+                                              {**rec, 'result_src': root.src, 'elements': got, 'expected_elements': want})
+                                continue
+                            lost = [c for c in re.findall(r'#[^\n]*', src) if c not in root.src and any(c in t for t in want)]
+                            if lost:
+                                ctx.violation(f'comment-lost|view-sequence|{second}', 'a comment of an element that stays was lost by two edits through one bounded view', {**rec, 'result_src': root.src, 'lost': lost})
+
+
 def run(ctx: Ctx):
     ctx.rule = ('(1) random line blocks for leading_trivia, model vs real; (2) random edit sequences; after each successful op the token stream (COMMENT '
                 'included) before/after is compared: the changed window must lie inside the element extent extended by adjacent separators, own '
@@ -961,6 +1025,7 @@ def run(ctx: Ctx):
     run_guarded(ctx, stage_oracle, progs)
     run_guarded(ctx, stage_line_comment, progs)
     run_guarded(ctx, stage_targeted)
+    run_guarded(ctx, stage_view_sequences)
 
 
 def replay(path):
